@@ -113,7 +113,14 @@ kind_to_target = dict(
 )
 
 constant_to_target = dict(
-    smallest="sys.float_info.min", largest="sys.float_info.max", posinf="math.inf", neginf="-math.inf", pi="math.pi"
+    smallest_subnormal="math.ulp(0.0)",
+    smallest="sys.float_info.min",
+    eps="sys.float_info.epsilon",
+    largest="sys.float_info.max",
+    posinf="math.inf",
+    neginf="-math.inf",
+    pi="math.pi",
+    nan="math.nan",
 )
 
 type_to_target = dict(integer="int", float="float", complex="complex", boolean="bool")
@@ -142,7 +149,9 @@ class Printer(PrinterBase):
         return f"{var}: {typ} = {value}"
 
     def make_constant(self, like, value):
-        return f"{value}"
+        s = f"{value}"
+        # str(float) of a non-finite value is not a Python expression
+        return {"inf": "math.inf", "-inf": "-math.inf", "nan": "math.nan"}.get(s, s)
 
     def show_value(self, var):
         return f'print("{var}=", {var})'
